@@ -149,6 +149,11 @@ func vfRunC20(t *testing.T, job *vfC20Job) (out vfC20Out) {
 					break
 				}
 				outcome = append(outcome, fmt.Sprintf("ended=%v err=%v", l.ended, l.err != nil))
+				if l.ended && l.err == nil {
+					// nobody ended this stream (the initiator sent nothing and did not hang up, no source stream ended): a
+					// handler that returns at once without an error closes the stream with status OK - neither served nor rejected
+					violate("stream-neither-served-nor-rejected", fmt.Sprintf("open %+v: the handler returned at once without an error (the initiator sees a clean end of stream)", o))
+				}
 				if !o.Keep && !l.ended {
 					l.ss.cancel()
 					synctest.Wait()
